@@ -28,6 +28,14 @@ Proof. intros L H. unfold pk_chunks in H. simpl in H. injection H as H1 H2 H3 H4
   apply (map_inj _ A1_inj) in H4. apply (map_inj _ A2_inj) in H5.
   destruct pk, pk'; simpl in *; congruence. Qed.
 
+(** the byte representation of a key ([to_bytes], hashed into the channel id) determines the key *)
+Theorem pk_to_bytes_atoms_injective (pk pk' : pkey K) :
+  length (pk_y1s pk) = length (pk_y1s pk') -> pk_to_bytes_atoms pk = pk_to_bytes_atoms pk' -> pk = pk'.
+Proof. intros L H. unfold pk_to_bytes_atoms in H. cbn [app] in H. injection H as H1 H2.
+  apply app_inj_len in H2; [|now rewrite !map_length]. destruct H2 as [H2 H3]. cbn [app] in H3. injection H3 as H3 H4 H5.
+  apply (map_inj _ A1_inj) in H2. apply (map_inj _ A2_inj) in H5.
+  destruct pk, pk'; simpl in *; congruence. Qed.
+
 Lemma pk_chunks_app_inj (pk pk' : pkey K) (r r' : list (atom K)) :
   length (pk_y1s pk) = length (pk_y1s pk') -> length (pk_y2s pk) = length (pk_y2s pk') ->
   pk_chunks pk ++ r = pk_chunks pk' ++ r' -> pk = pk' /\ r = r'.
